@@ -2,7 +2,7 @@
    to the model's answer and, where the property has an executable spec, the spec's answer.
    Extracted to OCaml; the hand-written driver only parses and prints tokens. *)
 From Coq Require Import ZArith Bool List String.
-From HF Require Import MachInt Outcome GenConsts GenLeap GenUnits GenText Text Duration Epoch Gregorian TimeSeries F64 DurationF64 Views TextFmt TextParse GenUnicode SignedNs Civil LeapSpec TextSpec EtTdb EtTdbSpec.
+From HF Require Import MachInt Outcome GenConsts GenLeap GenUnits GenText Text Duration Epoch Gregorian TimeSeries F64 DurationF64 Views TextFmt TextParse GenUnicode SignedNs Civil LeapSpec TextSpec EtTdb EtTdbSpec LeapFile.
 Import ListNotations.
 Open Scope Z_scope.
 
@@ -725,8 +725,34 @@ Definition dispatch_ettdb (sinbits : Z -> Z) (name : string) (a : list tok) : op
   | _, _ => None
   end.
 
+(* ------------------------------------------------------------------ leap seconds file provider (C06) ---- *)
+Fixpoint list_eqb (a b : list (Z * Z)) : bool :=
+  match a, b with [], [] => true | (x1, y1) :: a', (x2, y2) :: b' => (x1 =? x2) && (y1 =? y2) && list_eqb a' b' | _, _ => false end.
+Definition dispatch_leapfile (name : string) (a : list tok) : option (list tok * list tok) :=
+  let exact_below (b : Z) (p : provider) := forallb (fun e => fst e <? b) p in
+  match name, a with
+  | "leapfile"%string, [TL s] =>
+      Some (match parse_leap_file s with
+            | FileOk p => if exact_below (2 ^ 53) p then [TZ 1; TL (flat_map (fun e => [fst e; snd e]) p)] else nospec
+            | FileErr k => [TErr k] end, nopanic)
+  | "leapfile_lookup"%string, [TL s; TZ c; TZ n] =>
+      Some (match parse_leap_file s with
+            | FileOk p => if exact_below 4000000000 p
+                          then (match leap_seconds_with p (from_parts c n) with Some x => [TZ 1; TZ x] | None => [TZ 0] end)
+                          else nospec
+            | FileErr k => [TErr k] end,
+            (* for a file holding the IERS table itself the answer is the spec's step function *)
+            match parse_leap_file s with
+            | FileOk p => if list_eqb p IERS_FILE then
+                            (let d := spec_delta_utc (pval c n) in if d =? 0 then [TZ 0] else [TZ 1; TZ d])
+                          else nopanic
+            | FileErr _ => nopanic end)
+  | _, _ => None
+  end.
+
 Definition dispatch (sinbits : Z -> Z) (name : string) (a : list tok) : option (list tok * list tok) :=
   match dispatch_ettdb sinbits name a with Some r => Some r | None =>
+  match dispatch_leapfile name a with Some r => Some r | None =>
   match dispatch_parse name a with Some r => Some r | None =>
   match dispatch_text name a with Some r => Some r | None =>
   match dispatch_views name a with Some r => Some r | None =>
@@ -737,7 +763,7 @@ Definition dispatch (sinbits : Z -> Z) (name : string) (a : list tok) : option (
             | Some r => Some r
             | None => dispatch_calendar name a
             end
-  end end end end end end.
+  end end end end end end end.
 
 (* decimal I/O helpers for the driver, so that the OCaml side needs no bignum code *)
 
